@@ -1700,6 +1700,37 @@ func init() {
 				return "bad-pipeline-cmd"
 			}
 		}
+		// life cycle (C15, Cluster/Pipeline.lean: Life): a future before Exec, a second Exec, Discard, a future of the
+		// discarded generation, Exec of the re-usable empty pipeline, Close, Exec and Discard of the closed pipeline
+		lifeClass := func(err error) string {
+			switch {
+			case err == nil:
+				return "none"
+			case errors.Is(err, olric.ErrNotReady):
+				return "notReady"
+			case errors.Is(err, olric.ErrPipelineClosed):
+				return "closed"
+			case errors.Is(err, olric.ErrPipelineExecuted):
+				return "executed"
+			}
+			return errClass(err)
+		}
+		futErr := func(f fut) string {
+			switch r := f(); r {
+			case "other:not_ready_yet":
+				return "notReady"
+			case "other:pipeline_is_closed", "neterr":
+				return "closed"
+			default:
+				return "answered:" + r
+			}
+		}
+		var life []string
+		if len(futs) > 0 {
+			life = append(life, futErr(futs[0]))
+		} else {
+			life = append(life, "-")
+		}
 		if err := p.Exec(ctx); err != nil {
 			return "exec:" + errClass(err)
 		}
@@ -1707,7 +1738,16 @@ func init() {
 		for i, f := range futs {
 			out[i] = f()
 		}
-		return strings.Join(out, "|")
+		life = append(life, lifeClass(p.Exec(ctx)), lifeClass(p.Discard()))
+		if len(futs) > 0 {
+			life = append(life, futErr(futs[len(futs)-1]))
+		} else {
+			life = append(life, "-")
+		}
+		life = append(life, lifeClass(p.Exec(ctx)))
+		p.Close()
+		life = append(life, lifeClass(p.Exec(ctx)), lifeClass(p.Discard()))
+		return strings.Join(out, "|") + " life=" + strings.Join(life, ",")
 	}))
 	register("c.commands", func(a []string) string {
 		return strings.Join(cl.members[atoi(a[0])].db.VerifInternals().Server.VerifCommands(), ",")
